@@ -22,8 +22,8 @@ def comps(shape):
 
 class C10(Prop):
     pid = "C10"
-    lean_modules = ["UflVerif.Props.C10", "UflVerif.Props.C10Rename"]
-    min_theorems = 12
+    lean_modules = ["UflVerif.Props.C10", "UflVerif.Props.C10Rename", "UflVerif.Props.C10Subst"]
+    min_theorems = 20
     trusted = ["correspondence harness/props/c10.py + Drivers/C10.lean; value oracle through Drivers/Expr.lean `eval`",
                "modelled rather than verified: map_expr_dag memoisation (results are functions of structure, C19), object identity in reuse_if_untouched modelled by structural equality, "
                "IndexExpander.form_argument's symmetry mapping (elements with symmetry are not generated), float literal folding exact"]
@@ -173,6 +173,12 @@ class C10(Prop):
                 evreqs.append("(eval %s %s %s %s)" % (uflio.ser(x, memo), uflio.nats(comp), w, ienv))
                 evreqs.append("(eval %s %s %s %s)" % (uflio.ser(r, memo), uflio.nats(comp if name != "expand" else ()), w, ienv))
         replies = leandrv.run_driver("C10", reqs)
+        # the plain-tree pass the value theorem C10_rct_plain_value is about: how often is it literally the implementation's output?
+        plain_reqs = [rq.replace("(rct ", "(rctPlain ", 1) for rq in reqs if rq.startswith("(rct ")]
+        plain_rep = leandrv.run_driver("C10", plain_reqs)
+        rct_rep = [rep for rq, rep in zip(reqs, replies) if rq.startswith("(rct ")]
+        ev.cov["rct_plain_tree_equals_rebuilt_tree"] = sum(1 for a, b in zip(plain_rep, rct_rep) if canon(a) == canon(b))
+        ev.cov["rct_cases"] = len(plain_reqs)
         fails, unsupported, distinct, changed = [], 0, set(), 0
         for (k, name, kind, x, r, impl), rq, rep in zip(meta, reqs, replies):
             if rep == "(unsupported)":
